@@ -42,15 +42,15 @@ theorem cycles_partition (hO : ∀ r l, (O2 r l).Perm l) :
     (cyclesGen alap allowPerm ns O2).flatten.Perm (List.range ns.length) :=
   cyclesGen_perm alap allowPerm ns O2 hO
 
-example : (gateCycles ⟨true, true, [[1, 0]]⟩
-    [⟨"X", [0], [], 1⟩, ⟨"CNOT", [1], [0], 1⟩, ⟨"X", [1], [], 1⟩, ⟨"SNOT", [0], [], 1⟩]) = [[0], [1], [3, 2]] := by
+example : (gateCycles ⟨true, true, [[1, 0]], false⟩
+    [⟨"X", [0], [], 1, true⟩, ⟨"CNOT", [1], [0], 1, true⟩, ⟨"X", [1], [], 1, true⟩, ⟨"SNOT", [0], [], 1, true⟩]) = [[0], [1], [3, 2]] := by
   decide +kernel
 
 /-- the dependency graph is a DAG on `0 … n-1`: every edge goes from a smaller to a larger index -/
 theorem dep_edges_forward {a b : Nat} (h : (a, b) ∈ depEdges allowPerm ns) : a < b ∧ b < ns.length :=
   depEdges_forward allowPerm ns h
 
-example : depEdges true [⟨"X", [0], [], 1⟩, ⟨"CNOT", [1], [0], 1⟩, ⟨"X", [1], [], 1⟩, ⟨"SNOT", [0], [], 1⟩]
+example : depEdges true [⟨"X", [0], [], 1, true⟩, ⟨"CNOT", [1], [0], 1, true⟩, ⟨"X", [1], [], 1, true⟩, ⟨"SNOT", [0], [], 1, true⟩]
     = [(0, 1), (1, 3)] := by decide +kernel
 
 /-! ## (b) no two gates in one cycle share a qubit -/
@@ -64,8 +64,8 @@ theorem cycle_disjoint (c : List Nat) (hc : c ∈ cyclesGen alap allowPerm ns O2
   rw [h] at this
   exact absurd this (by simp)
 
-example : [3, 2] ∈ gateCycles ⟨true, true, []⟩
-    [⟨"X", [0], [], 1⟩, ⟨"CNOT", [1], [0], 1⟩, ⟨"X", [1], [], 1⟩, ⟨"SNOT", [0], [], 1⟩] := by decide +kernel
+example : [3, 2] ∈ gateCycles ⟨true, true, [], false⟩
+    [⟨"X", [0], [], 1, true⟩, ⟨"CNOT", [1], [0], 1, true⟩, ⟨"X", [1], [], 1, true⟩, ⟨"SNOT", [0], [], 1, true⟩] := by decide +kernel
 
 /-! ## (c) the order of non-commuting qubit-sharing gates is respected -/
 
@@ -84,8 +84,8 @@ theorem order_respected (hO : ∀ r l, (O2 r l).Perm l) (i j : Nat) (hij : i < j
   rw [cycleIndices_getD ns i (by omega), cycleIndices_getD ns j hj]
   exact cyclesGen_order alap allowPerm ns O2 hO hij hj hs hc
 
-example : shareIdx [⟨"X", [0], [], 1⟩, ⟨"CNOT", [1], [0], 1⟩] 0 1 = true ∧
-    commIdx true [⟨"X", [0], [], 1⟩, ⟨"CNOT", [1], [0], 1⟩] 1 0 = false := by decide +kernel
+example : shareIdx [⟨"X", [0], [], 1, true⟩, ⟨"CNOT", [1], [0], 1, true⟩] 0 1 = true ∧
+    commIdx true [⟨"X", [0], [], 1, true⟩, ⟨"CNOT", [1], [0], 1, true⟩] 1 0 = false := by decide +kernel
 
 /-- **order kept without permutation.**  With `allow_permutation=False` every two gates that share a
 qubit keep their original relative order. -/
@@ -163,17 +163,17 @@ theorem schedule_den_partial_ins (hO : ∀ r l, (O2 r l).Perm l) (G : Ins → M)
 
 end den
 
-example : shareIdx [⟨"Z", [0], [], 1⟩, ⟨"CNOT", [1], [0], 1⟩] 0 1 = true ∧
-    commRules ⟨"Z", [0], [], 1⟩ ⟨"CNOT", [1], [0], 1⟩ = true := by decide +kernel
+example : shareIdx [⟨"Z", [0], [], 1, true⟩, ⟨"CNOT", [1], [0], 1, true⟩] 0 1 = true ∧
+    commRules ⟨"Z", [0], [], 1, true⟩ ⟨"CNOT", [1], [0], 1, true⟩ = true := by decide +kernel
 
 /-! ### the full statement (without `H2`) is false -/
 
 /-- the witness of the known finding: two `QASMU` gates on qubit 0 (their angles, invisible to the
 scheduler, differ: `QASMU(1,0,0)` and `QASMU(0,0,1)`) -/
-def witness : List Ins := [⟨"QASMU", [0], [], 1⟩, ⟨"QASMU", [0], [], 1⟩]
+def witness : List Ins := [⟨"QASMU", [0], [], 1, true⟩, ⟨"QASMU", [0], [], 1, true⟩]
 
 /-- ALAP swaps the two gates of the witness. -/
-theorem C05_counterexample_order : gateCycles ⟨true, true, []⟩ witness = [[1], [0]] := by decide +kernel
+theorem C05_counterexample_order : gateCycles ⟨true, true, [], false⟩ witness = [[1], [0]] := by decide +kernel
 
 /-- **Refutation of `schedule_den` without `H2`.**  There is a monoid and an interpretation of the two
 gates of the witness satisfying `H1` for which the scheduled product differs from the original one
@@ -181,7 +181,7 @@ gates of the witness satisfying `H1` for which the scheduled product differs fro
 theorem C05_counterexample_den :
     ∃ g : Nat → FreeMonoid Nat,
       (∀ i j, i < witness.length → j < witness.length → shareIdx witness i j = false → Commute (g i) (g j)) ∧
-      ((gateCycles ⟨true, true, []⟩ witness).flatten.map g).prod ≠ ((List.range witness.length).map g).prod := by
+      ((gateCycles ⟨true, true, [], false⟩ witness).flatten.map g).prod ≠ ((List.range witness.length).map g).prod := by
   refine ⟨FreeMonoid.of, ?_, ?_⟩
   · intro i j hi hj hs
     have : ∀ i ∈ List.range 2, ∀ j ∈ List.range 2, shareIdx witness i j = true := by decide +kernel
@@ -194,12 +194,13 @@ theorem C05_counterexample_den :
 
 /-! ## (f) what `commutation_rules` answers `true` for -/
 
-/-- **comm_rule_table.**  The rule declares exactly five families of pairs commuting: same name with
-equal non-empty controls, or with equal targets; `CNOT` with `X`/`RX` on its target; `CNOT` with
+/-- **comm_rule_table.**  The rule declares exactly five families of pairs commuting: same name (listed
+as self-commuting by the module, `sc`, if it has such a list) with equal non-empty controls, or with equal targets; `CNOT` with `X`/`RX` on its target; `CNOT` with
 `Z`/`RZ` on its control (either order).  `H2` has to be discharged for these families; it fails for
 same-name pairs of families that do not commute with themselves. -/
 theorem comm_rule_table (a b : Ins) : commRules a b = true ↔
-    (a.name = b.name ∧ ((a.controls ≠ [] ∧ a.controls = b.controls) ∨ a.targets = b.targets)) ∨
+    (a.name = b.name ∧ a.sc = true ∧ b.sc = true ∧
+      ((a.controls ≠ [] ∧ a.controls = b.controls) ∨ a.targets = b.targets)) ∨
     (a.name = "CNOT" ∧ (b.name = "X" ∨ b.name = "RX") ∧ a.targets = b.targets) ∨
     (a.name = "CNOT" ∧ (b.name = "Z" ∨ b.name = "RZ") ∧ a.controls = b.targets) ∨
     (b.name = "CNOT" ∧ (a.name = "X" ∨ a.name = "RX") ∧ b.targets = a.targets) ∨
@@ -208,21 +209,21 @@ theorem comm_rule_table (a b : Ins) : commRules a b = true ↔
 
 /-- the rule factors through a finite abstraction (name class × name class × six Boolean relations) … -/
 theorem comm_rule_abstraction (a b : Ins) : commRules a b =
-    commAbs (nameCls a.name) (nameCls b.name) (a.name == b.name) (!a.controls.isEmpty)
+    commAbs (nameCls a.name) (nameCls b.name) (a.name == b.name) (a.sc && b.sc) (!a.controls.isEmpty)
       (a.controls == b.controls) (a.targets == b.targets) (a.controls == b.targets) (b.controls == a.targets) :=
   commRules_abs a b
 
 /-- … on which it is this decidable table. -/
-theorem comm_rule_abs_table : ∀ (ca cb : NameCls) (same cne ceq teq act bct : Bool),
-    commAbs ca cb same cne ceq teq act bct = true ↔
-      (same = true ∧ ((cne = true ∧ ceq = true) ∨ teq = true)) ∨
+theorem comm_rule_abs_table : ∀ (ca cb : NameCls) (same sc cne ceq teq act bct : Bool),
+    commAbs ca cb same sc cne ceq teq act bct = true ↔
+      (same = true ∧ sc = true ∧ ((cne = true ∧ ceq = true) ∨ teq = true)) ∨
       (same = false ∧ (
         ((ca = .cnot ∧ (cb = .x ∨ cb = .rx)) ∧ teq = true) ∨ ((cb = .cnot ∧ (ca = .x ∨ ca = .rx)) ∧ teq = true) ∨
         ((ca = .cnot ∧ (cb = .z ∨ cb = .rz)) ∧ act = true) ∨ ((cb = .cnot ∧ (ca = .z ∨ ca = .rz)) ∧ bct = true))) :=
   commAbs_true_iff
 
-example : commRules ⟨"QASMU", [0], [], 1⟩ ⟨"QASMU", [0], [], 1⟩ = true ∧
-    commRules ⟨"FREDKIN", [1, 2], [0], 1⟩ ⟨"FREDKIN", [2, 3], [0], 1⟩ = true := by decide +kernel
+example : commRules ⟨"QASMU", [0], [], 1, true⟩ ⟨"QASMU", [0], [], 1, true⟩ = true ∧
+    commRules ⟨"FREDKIN", [1, 2], [0], 1, true⟩ ⟨"FREDKIN", [2, 3], [0], 1, true⟩ = true := by decide +kernel
 
 /-! ## (e′) the same over ℂ: `H1` discharged
 
@@ -260,9 +261,9 @@ end denC
 -- the support hypothesis for a CNOT(control 1, target 0) and an X on qubit 2 of a 3-qubit register,
 -- whatever the two compact matrices are; the two instructions share no qubit
 example (U : Matrix (St 2) (St 2) ℂ) (V : Matrix (St 1) (St 1) ℂ) :
-    SupportedOn ((Tg.pair (1 : Fin 3) 0 (by decide)).embed U) (usedSet 3 ⟨"CNOT", [0], [1], 1⟩) ∧
-    SupportedOn ((⟨![2], fun a b _ => Subsingleton.elim a b⟩ : Tg 1 3).embed V) (usedSet 3 ⟨"X", [2], [], 1⟩) ∧
-    share ⟨"CNOT", [0], [1], 1⟩ ⟨"X", [2], [], 1⟩ = false := by
+    SupportedOn ((Tg.pair (1 : Fin 3) 0 (by decide)).embed U) (usedSet 3 ⟨"CNOT", [0], [1], 1, true⟩) ∧
+    SupportedOn ((⟨![2], fun a b _ => Subsingleton.elim a b⟩ : Tg 1 3).embed V) (usedSet 3 ⟨"X", [2], [], 1, true⟩) ∧
+    share ⟨"CNOT", [0], [1], 1, true⟩ ⟨"X", [2], [], 1, true⟩ = false := by
   refine ⟨SupportedOn.embed _ _ ?_, SupportedOn.embed _ _ ?_, by decide⟩
   · rintro _ ⟨p, rfl⟩
     fin_cases p <;> (show _ ∈ Ins.used _; decide)
@@ -277,7 +278,8 @@ symbolic angle); `insOf g` is what the scheduler sees of `g` (name, sorted targe
 symbolic angles (`Lemmas/Sem.lean`: generated rotation matrices at real angles, exact ℤ[ζ₁₆] matrices of
 the fixed gates mapped to ℂ).
 
-`safeComm N gs` is **decidable**: every gate has complex semantics and is well-formed on the register
+`safeComm w N gs` (`w`: the names the module lists as self-commuting; `fun _ => true` for a module
+without such a list) is **decidable**: every gate has complex semantics and is well-formed on the register
 (`wfG`), and every pair `i < j` sharing a qubit which `commutation_rules` declares commuting belongs to
 a family for which commutation is **proved** (`safePair`, `Lemmas/SchedFam.lean`):
 same one-qubit name among `X Y Z S T SNOT SQRTNOT IDLE RX RY RZ PHASEGATE` on the same target (all angles);
@@ -288,14 +290,14 @@ It is `false` whenever a declared-commuting pair is a `TOFFOLI`/`FREDKIN` pair o
 pair listed in opposite orders, and whenever the circuit contains a name without complex semantics
 (`SWAPalpha R QASMU MS RZX`, user gates) — this includes every family on which the rule is unsound. -/
 
-/-- **schedule_den_C_safe.**  For every circuit with `safeComm N gs = true`, both methods, both
+/-- **schedule_den_C_safe.**  For every circuit with `safeComm w N gs = true`, both methods, both
 permutation settings, every oracle and every valuation of the angles: the scheduled circuit (gates
 listed cycle by cycle) denotes the same operator as the original circuit.  No hypothesis on matrices. -/
-theorem schedule_den_C_safe (N : ℕ) (ρ : ℕ → ℝ) (gs : List Gate) (hO : ∀ r l, (O2 r l).Perm l)
-    (hs : safeComm N gs = true) :
-    denG N ρ (((cyclesGen alap allowPerm (gs.map insOf) O2).flatten).map (fun i => gs.getD i dfltGate)) =
+theorem schedule_den_C_safe (w : String → Bool) (N : ℕ) (ρ : ℕ → ℝ) (gs : List Gate) (hO : ∀ r l, (O2 r l).Perm l)
+    (hs : safeComm w N gs = true) :
+    denG N ρ (((cyclesGen alap allowPerm (gs.map (insOf w)) O2).flatten).map (fun i => gs.getD i dfltGate)) =
       denG N ρ gs :=
-  schedule_den_safe ρ alap allowPerm gs O2 hO hs
+  schedule_den_safe ρ w alap allowPerm gs O2 hO hs
 
 /-- `H2` for one pair of a proved family, on every register (the content of `safeComm`) -/
 theorem safe_pair_commute (N : ℕ) (ρ : ℕ → ℝ) (a b : Gate) (A B : Matrix (St N) (St N) ℂ)
@@ -304,15 +306,15 @@ theorem safe_pair_commute (N : ℕ) (ρ : ℕ → ℝ) (a b : Gate) (A B : Matri
 
 -- non-vacuity: a circuit with four different declared-commuting pairs (CNOT/RX on the target, two CNOTs
 -- with one control, CNOT/RZ on the control, two RZ on one qubit), symbolic angles, and a SWAP
-example : safeComm 3 [⟨.X, [0], [], {}⟩, ⟨.CNOT, [1], [0], {}⟩, ⟨.RX, [1], [], Ang.symb 0⟩, ⟨.CNOT, [2], [0], {}⟩,
+example : safeComm (fun _ => true) 3 [⟨.X, [0], [], {}⟩, ⟨.CNOT, [1], [0], {}⟩, ⟨.RX, [1], [], Ang.symb 0⟩, ⟨.CNOT, [2], [0], {}⟩,
     ⟨.RZ, [0], [], Ang.symb 1⟩, ⟨.RZ, [0], [], Ang.symb 2⟩, ⟨.SWAP, [1, 2], [], {}⟩] = true := by decide +kernel
 
-example : commRules (insOf ⟨.CNOT, [1], [0], {}⟩) (insOf ⟨.RX, [1], [], Ang.symb 0⟩) = true ∧
+example : commRules (insOf (fun _ => true) ⟨.CNOT, [1], [0], {}⟩) (insOf (fun _ => true) ⟨.RX, [1], [], Ang.symb 0⟩) = true ∧
     safePair ⟨.CNOT, [1], [0], {}⟩ ⟨.RX, [1], [], Ang.symb 0⟩ = true := by decide +kernel
 
 -- the predicate refuses the unsound families: two FREDKIN gates sharing the control with overlapping targets
 -- (declared commuting, not a proved family), and any circuit containing a QASMU gate
-example : safeComm 4 [⟨.FREDKIN, [1, 2], [0], {}⟩, ⟨.FREDKIN, [2, 3], [0], {}⟩] = false ∧
-    safeComm 1 [⟨.QASMU, [0], [], {}⟩, ⟨.QASMU, [0], [], {}⟩] = false := by decide +kernel
+example : safeComm (fun _ => true) 4 [⟨.FREDKIN, [1, 2], [0], {}⟩, ⟨.FREDKIN, [2, 3], [0], {}⟩] = false ∧
+    safeComm (fun _ => true) 1 [⟨.QASMU, [0], [], {}⟩, ⟨.QASMU, [0], [], {}⟩] = false := by decide +kernel
 
 end QipVerif.C05
